@@ -247,6 +247,11 @@ func TestHeld(t *testing.T) {
 				if rng.Intn(2) == 0 {
 					k.completeExcept(held, 5000)
 				}
+				if hc.CbHold {
+					// the victim's ConnClosed / FidDestroy callbacks are slow (parked): nobody else may wait for them
+					k.completeExcept(held, 5000)
+					k.Bystander()
+				}
 			}
 			for _, h := range pl.order {
 				k.C.Wait()
